@@ -170,8 +170,18 @@ def parseAtomSrc (s : List Char) : Option AtomSrc :=
 
 /-! ### templates -/
 
+/-- one entry of a slice: `a:b`, `a:`, `:b`, `:` or `n` (meaning `(n, n)`); anything else is refused -/
+def sliceEntry (cs : List Char) : Option (Option Nat × Option Nat) :=
+  if cs.contains ':' then
+    let a := cs.takeWhile (· ≠ ':')
+    let b := (cs.dropWhile (· ≠ ':')).drop 1
+    if b.contains ':' then none
+    else some (if a.isEmpty then none else some (digitsVal a), if b.isEmpty then none else some (digitsVal b))
+  else if cs.isEmpty then none else some (some (digitsVal cs), some (digitsVal cs))
+
 /-- `[a:b,c]` directly after a reference (`Parser._part_dimension`): one `(min, max)` pair per
-    entry, `n` alone meaning `(n, n)`. `none` = no slice there. -/
+    entry, `n` alone meaning `(n, n)`. `none` = no slice there.  The body is split at the commas
+    with the list splitter `List.splitOn` (same pieces as `str.split(",")`, empty ones included). -/
 def parseSlice (s : List Char) : Option (List (Option Nat × Option Nat) × List Char) :=
   match s with
   | '[' :: t =>
@@ -180,16 +190,7 @@ def parseSlice (s : List Char) : Option (List (Option Nat × Option Nat) × List
     | ']' :: rest =>
       if body.isEmpty then none
       else
-        let parts := (String.ofList body).splitOn ","
-        let conv (p : String) : Option (Option Nat × Option Nat) :=
-          let cs := p.toList
-          if cs.contains ':' then
-            let a := cs.takeWhile (· ≠ ':')
-            let b := (cs.dropWhile (· ≠ ':')).drop 1
-            if b.contains ':' then none
-            else some (if a.isEmpty then none else some (digitsVal a), if b.isEmpty then none else some (digitsVal b))
-          else if cs.isEmpty then none else some (some (digitsVal cs), some (digitsVal cs))
-        match parts.mapM conv with
+        match (body.splitOn ',').mapM sliceEntry with
         | some l => some (l, rest)
         | none => none
     | _ => none
